@@ -20,6 +20,7 @@ Lemma read_terms_mono T s k : mem k T = true -> mem k (read_terms T s) = true.
 Proof.
   unfold read_terms, read_key; intros H.
   destruct (un_be32 (firstn 4 s)) as [len|]; [|exact H].
+  destruct (_ <? _); [exact H|].
   cbn. destruct ((len =? 0) && negb (mem _ T)); [|exact H].
   simpl. rewrite H. apply orb_true_r.
 Qed.
@@ -121,7 +122,9 @@ Lemma read_key_app T' n k rest :
 Proof.
   intros Hn Hk. unfold read_key.
   rewrite firstn4_be32, skipn4_be32, un_be32_be32 by exact Hn.
-  rewrite <- Hk, Z.min_l by (rewrite app_length; lia).
+  rewrite <- Hk.
+  destruct (Z.of_nat (length (k ++ rest)) <? Z.of_nat (length k)) eqn:E;
+    [rewrite app_length in E; lia|].
   rewrite Nat2Z.id, firstn_app_exact, skipn_app_exact. reflexivity.
 Qed.
 
@@ -162,16 +165,22 @@ Proof.
   rewrite H1, H2, app_length, be32_length. lia.
 Qed.
 
-(* --- the term set keeps 4-byte keys only as long as every read finds its 4 bytes *)
+(* --- the term set keeps 4-byte keys only: a read either finds the whole key or fails (since 708c13e) *)
 Lemma read_terms_all4 T s :
-  all4 T = true -> (8 <= length s)%nat -> all4 (read_terms T s) = true.
+  all4 T = true -> all4 (read_terms T s) = true.
 Proof.
-  intros HT Hs. unfold read_terms, read_key.
-  destruct (un_be32 (firstn 4 s)) as [len|]; [|exact HT]. cbn.
-  destruct (len =? 0) eqn:E; cbn [andb]; [|exact HT].
-  destruct (mem _ T); cbn [negb]; [exact HT|].
-  cbn [all4 forallb]. fold (all4 T). rewrite HT, andb_true_r.
-  apply Nat.eqb_eq.
-  do 8 (destruct s as [|? s]; [cbn [length] in Hs; lia|]).
-  cbn [skipn length]. rewrite Z.min_l by lia. reflexivity.
+  intros HT. unfold read_terms, read_key.
+  destruct (un_be32 (firstn 4 s)) as [len|]; [|exact HT].
+  destruct (len =? 0) eqn:E.
+  - destruct (Z.of_nat (length (skipn 4 s)) <? 4) eqn:El; [exact HT|].
+    cbn [andb]. destruct (mem _ T); cbn [negb]; [exact HT|].
+    cbn [all4 forallb]. fold (all4 T). rewrite HT, andb_true_r.
+    apply Nat.eqb_eq. change (Z.to_nat 4) with 4%nat. rewrite firstn_length. lia.
+  - destruct (_ <? _); exact HT.
+Qed.
+
+Lemma run_history_all4 h : forall T, all4 T = true -> all4 (run_history T h) = true.
+Proof.
+  induction h as [|s h IH]; intros T HT; [exact HT|].
+  cbn [run_history fold_left]. apply IH. apply read_terms_all4, HT.
 Qed.
